@@ -1,5 +1,8 @@
 #!/bin/sh
+# Builds the checker offline from files on disk only.
 set -e
-cd /verif/engine
+here=$(cd "$(dirname "$0")" && pwd)
+cd "$here/engine"
 export GOFLAGS=-mod=mod GOPROXY=off GOSUMDB=off GOTOOLCHAIN=local
-go build -o /verif/bin/vcheck ./cmd/vcheck
+mkdir -p "$here/bin"
+go build -o "$here/bin/vcheck" ./cmd/vcheck
